@@ -14,6 +14,7 @@ import (
 	"runtime"
 	"runtime/debug"
 	"sync"
+	"sync/atomic"
 	"syscall"
 	"time"
 )
@@ -113,6 +114,11 @@ type Pool struct {
 	Args    []string
 	// RecycleAfter jobs a worker is replaced (bounds leaked goroutines/sockets).
 	RecycleAfter int
+	// AbortOnTimeout: once a job has run into the time limit, jobs not yet started are skipped (Err "skipped:
+	// an earlier job timed out"): a search that has met an operation that does not return will meet it again in
+	// most of its remaining jobs, each costing the full time limit.
+	AbortOnTimeout bool
+	aborted        atomic.Bool
 }
 
 func New(n int) *Pool {
@@ -199,6 +205,10 @@ func (p *Pool) Map(kind string, datas []interface{}, onResult func(i int, r *Res
 				if i >= len(datas) {
 					return
 				}
+				if p.AbortOnTimeout && p.aborted.Load() {
+					results[i] = Result{ID: i, Err: "skipped: an earlier job timed out"}
+					continue
+				}
 				if w == nil || (p.RecycleAfter > 0 && served >= p.RecycleAfter) {
 					w.stop()
 					var err error
@@ -214,6 +224,9 @@ func (p *Pool) Map(kind string, datas []interface{}, onResult func(i int, r *Res
 				jb, _ := json.Marshal(Job{ID: i, Kind: kind, Data: raw})
 				jb = append(jb, '\n')
 				res := p.runOne(w, i, jb)
+				if res.Timeout {
+					p.aborted.Store(true)
+				}
 				if res.Timeout || res.Panic != "" || res.Err == "worker died" {
 					w.kill()
 					w = nil
